@@ -136,6 +136,8 @@ def loader_unit(n_mates, with_reject, index_parser):
         'yield_counter_counts_written_pairs':
             'strategyYields["STRAT"] == head(strategyYields, 0)["STRAT"] + (1 if %s else 0)' % ACCEPTED,
         'processed_counter': 'processedReadPairs == k',
+        # a pair that is counted has been handed to the strategy (it is then accepted or rejected, never skipped)
+        'counted_pair_was_handed_to_the_strategy': 'GHOST["strategy_outcome"] is not None',
     }
     if with_reject:
         body_post.update({
@@ -228,8 +230,12 @@ def loader_replay(n_mates, with_reject, index_parser):
             me = types.SimpleNamespace(indexParser=Idx() if index_parser else None, barcodeParser=None)
             target = H.FastqHandle(os.path.join(d, 'target'), pairedEnd=(n_mates == 2))
             reject = H.FastqHandle(os.path.join(d, 'reject'), pairedEnd=(n_mates == 2)) if with_reject else None
-            processed, yields = L.DemultiplexingStrategyLoader.demultiplex(me, paths, strategies=[Strat()], library='LIB',
-                                                                           targetFile=target, rejectHandle=reject)
+            mrp = inputs.get('maxReadPairs') if isinstance(inputs, dict) else None
+            mrp = mrp if isinstance(mrp, int) and not isinstance(mrp, bool) else None
+            P = 4 if mrp is None else min(4, max(1, mrp))          # pairs the loop must handle completely before stopping
+            n_acc, n_rej = P // 2, (P + 1) // 2
+            processed, yields = L.DemultiplexingStrategyLoader.demultiplex(me, paths, maxReadPairs=mrp, strategies=[Strat()],
+                                                                           library='LIB', targetFile=target, rejectHandle=reject)
             target.close()
             if reject:
                 reject.close()
@@ -243,18 +249,19 @@ def loader_replay(n_mates, with_reject, index_parser):
                                                   'target_lines': [len(x) - 1 if x else None for x in t],
                                                   'reject_lines': [len(x) - 1 if x else None for x in r]}}
             failed = []
-            # 4 pairs: 1st and 3rd rejected, 2nd and 4th accepted (the 4th with an empty captured sequence)
+            # up to 4 pairs: 1st and 3rd rejected, 2nd and 4th accepted (the 4th with an empty captured sequence); with a
+            # maxReadPairs cut-off the first P pairs are handled completely
             for m in range(n_mates):
-                if t[m] is None or len(t[m]) - 1 != 8 or not t[m][0].startswith('@') or t[m][5] != '':
+                if t[m] is None or len(t[m]) - 1 != 4 * n_acc or (n_acc and not t[m][0].startswith('@')) or (n_acc == 2 and t[m][5] != ''):
                     failed.append({'clause': 'accepted_pair_written_once_to_the_output', 'mate': m, 'lines': t[m]})
                 if with_reject:
-                    ok = r[m] is not None and len(r[m]) - 1 == 8 and r[m][-1] == '' and all(
+                    ok = r[m] is not None and len(r[m]) - 1 == 4 * n_rej and r[m][-1] == '' and all(
                         r[m][4 * i].startswith('@') and 'RR:' in r[m][4 * i] and r[m][4 * i + 1] == 'ACGTACGTAAGG' and r[m][4 * i + 3] == 'IIIIIIIIIIII'
-                        for i in range(2))
+                        for i in range(n_rej))
                     if not ok:
                         failed.append({'clause': 'rejected_record_keeps_bases_and_qualities_and_reason', 'mate': m, 'reject_file_lines': r[m]})
-            if yields.get('STRAT', 0) != 2 or processed != 4:
-                failed.append({'clause': 'counters', 'yields': dict(yields), 'processed': processed})
+            if yields.get('STRAT', 0) != n_acc or processed != P:
+                failed.append({'clause': 'counters', 'yields': dict(yields), 'processed': processed, 'maxReadPairs': mrp})
             if failed:
                 return {'status': 'confirmed', 'observed': obs, 'failed': failed}
             return {'status': 'not-reproduced', 'observed': obs}
@@ -329,3 +336,62 @@ write_joint = Contract(
     raises={},
 )
 UNITS.append(write_joint)
+
+
+# ------------------------------------------------------------------------------ FastqHandle.write (one file per cell)
+def sc_setup(eng):
+    eng.ghost.clear()
+    eng.ghost['calls'] = []
+    eng.spec_env['GHOST'] = eng.ghost
+    stubs.STUBS['CellFiles'] = {'methods': {
+        'write': lambda e, o, path, string, method=0, **k: e.ghost['calls'].append((path, string, method))}, 'props': {}, 'setters': {}}
+    stubs.STUBS['RecordText'] = {'methods': {'__str__': lambda e, o: o.attrs['text']}, 'props': {}, 'setters': {}}
+
+
+def sc_handle(eng, name):
+    lim = Obj('CellFiles', {})
+    lim.vc_immutable = True
+    return Obj('FastqHandle', {'pe': True, 'sc': True, 'path': 'out', 'handles': lim}, info=eng.loader.classref(FH, 'FastqHandle'))
+
+
+def sc_records(tagged):
+    def mk(eng, name):
+        out = []
+        for i in range(2):
+            tags = {'bi': segstr.register_atom(eng, named(STR, 'cell%d' % i), SAFE),
+                    'MX': segstr.register_atom(eng, named(STR, 'mux%d' % i), SAFE)} if tagged else {}
+            out.append(Obj('RecordText', {'tags': tags, 'text': named(STR, 'rec%d' % i)}))
+        eng.spec_env['RECS'] = out
+        return out
+    return mk
+
+
+def sc_unit(tagged):
+    cell = (lambda i: 'RECS[%d].tags["bi"] + "." + RECS[%d].tags["MX"]' % (i, i)) if tagged else (lambda i: '"no_cell_id.unk"')
+    return Contract(
+        PROP, FH + '::FastqHandle.write', name='FastqHandle.write[one file per cell, %s]' % ('cell tags' if tagged else 'no cell tags'),
+        params={'self': sc_handle, 'records': sc_records(tagged)},
+        setup=sc_setup,
+        ensures={
+            'one_append_per_mate_in_mate_order': 'len(GHOST["calls"]) == 2',
+            'mate_k_goes_to_the_Rk_file_of_its_cell':
+                'GHOST["calls"][0][0] == "out." + %s + ".R1.fastq.gz" and GHOST["calls"][1][0] == "out." + %s + ".R2.fastq.gz"'
+                % (cell(0), cell(1)),
+            'record_text_unchanged_gzip_mode':
+                'all(GHOST["calls"][m][1] == RECS[m].text and GHOST["calls"][m][2] == 1 for m in range(2))',
+        },
+        raises={},
+        assumptions=['HandleLimiter.write(path, text, method=1) appends text to the gzip file path: its own contract is C19, '
+                     're-verified under this property (shared units below)'],
+    )
+
+
+UNITS += [sc_unit(True), sc_unit(False)]
+
+
+def extra_units():
+    """one-file-per-cell output goes through HandleLimiter: its write / prune / close contracts (C19) carry "written exactly
+    once, earlier records of the cell preserved" for this property"""
+    from contracts import c19
+    from pyvc.units import share
+    return [share(c19.write, PROP), share(c19.prune, PROP), share(c19.close, PROP)]
